@@ -375,6 +375,13 @@ class HTMLUnicodeInputStream(object):
                 # chunk:
                 self.chunk = char + self.chunk
                 self.chunkSize += 1
+                # The character is part of this chunk again, so it must no
+                # longer be counted in the position carried over from the
+                # previous chunks
+                if char == "\n":
+                    self.prevNumLines -= 1
+                elif self.prevNumCols > 0:
+                    self.prevNumCols -= 1
             else:
                 self.chunkOffset -= 1
                 assert self.chunk[self.chunkOffset] == char
